@@ -20,11 +20,14 @@ pub(crate) fn peek_retained(ob: &Outbound<'_>, i: usize) -> Option<(u16, usize, 
 pub(crate) fn set_retained_state(ob: &mut Outbound<'_>, i: usize, s: SendState) {
     ob.retained[i].state = s;
 }
+pub(crate) fn set_release_state(ob: &mut Outbound<'_>, i: usize, s: SendState) {
+    ob.pending_release[i].state = s;
+}
 pub(crate) fn arena<'b>(ob: &'b Outbound<'_>) -> &'b [u8] {
     ob.buf
 }
 
-fn any_state(len: usize) -> SendState {
+pub(crate) fn any_state(len: usize) -> SendState {
     match kani::any::<u8>() % 3 {
         0 => {
             let w: usize = kani::any();
@@ -117,7 +120,7 @@ fn step_state(step: &OutboundStep) -> SendState {
     }
 }
 
-// @harness props=C01,C02,C16,C13 tier=quick layer=L2
+// @harness props=C01,C02,C16,C13,C15 tier=quick layer=L2
 // @harness funcs="Outbound::next_step, SendState::matches_priority, is_fresh, is_in_progress"
 // @harness sym="send state of each of 6 entries (Write{w}, Flush, Sent; w symbolic)" bounds="2 control + 2 release + 2 retained entries"
 #[kani::proof]
